@@ -1,11 +1,19 @@
 // C12: a shard-limited sqlgen.DB handle never reads or writes outside its shard.
 //
 // Every case builds a fresh fake MySQL server (pkg/fakesql) with the catalogue of pkg/sqlh, restricts a
-// sqlgen.DB with a shard limit and/or a dynamic limit, runs one DB method (or several concurrent batched
-// Query calls) with a filter / row that complies with the limit or not, and looks at what reached the
-// server.  Oracle (independent of the Coq model): every recorded statement is confined to the limit, and a
-// call that does not comply returned an error and issued no statement of its own.  The observations are
-// also written as Coq terms and compared with Sql/Model.v ([run], [run_batched]).
+// sqlgen.DB with a shard limit and/or a dynamic limit, and runs one of
+//   - one DB method (Query, QueryRow, FullScanQuery with SelectOptions, Count, InsertRow(s), UpsertRow(s),
+//     UpdateRow, DeleteRow), in or out of a transaction, with or without batch.WithBatching;
+//   - several concurrent batched Query calls on one handle ("batch") or on several handles derived from the
+//     same DB, which share its batch function ("mbatch": restricted + unrestricted, two shard limits);
+//   - a sequence of methods inside one transaction of the caller ("txseq"), committed or rolled back;
+//
+// with filters / rows that comply with the limit or not, and looks at what reached the server.  Oracle
+// (independent of the Coq model): every recorded statement is confined to the limit; every disjunct of a
+// combined statement is the filter of a caller of that invocation; a call that does not comply returned an
+// error (not a panic) and issued no statement of its own; Count answers the number of matching rows.  The
+// observations are also written as Coq terms and compared with Sql/Model.v ([run], [run_batched],
+// [run_batched_multi], [run_seq]).  With -search the cases are variants of given cases, oracle only.
 package main
 
 import (
@@ -15,8 +23,8 @@ import (
 	"fmt"
 	"path/filepath"
 	"reflect"
-	"sort"
 	"strings"
+	"sync"
 
 	"github.com/samsarahq/thunder/batch"
 	"github.com/samsarahq/thunder/sqlgen"
@@ -25,449 +33,102 @@ import (
 	"verifharness/pkg/vh"
 )
 
+// Sub is one DB method call.
+type Sub struct {
+	Op     string      `json:"op"` // query queryrow fullscan count insert insertrows upsert upsertrows update delete
+	Filter sqlh.Filter `json:"filter,omitempty"`
+	Opts   *sqlh.Opts  `json:"opts,omitempty"`
+	Row    sqlh.Row    `json:"row,omitempty"`
+	Rows   []sqlh.Row  `json:"rows,omitempty"`
+	Chunk  int         `json:"chunk,omitempty"`
+}
+
 type Case struct {
 	Table    string        `json:"table"`
 	Handle   sqlh.Handle   `json:"handle"`
 	InTx     bool          `json:"in_tx"`
 	Batching bool          `json:"batching"`
-	Op       string        `json:"op"` // query queryrow fullscan count insert insertrows upsert upsertrows update delete batch
-	Filter   sqlh.Filter   `json:"filter,omitempty"`
-	Opts     *sqlh.Opts    `json:"opts,omitempty"`
-	Row      sqlh.Row      `json:"row,omitempty"`
-	Rows     []sqlh.Row    `json:"rows,omitempty"`
-	Chunk    int           `json:"chunk,omitempty"`
-	Filters  []sqlh.Filter `json:"filters,omitempty"`
+	Commit   bool          `json:"commit,omitempty"` // how the harness ends the transaction of an in_tx / txseq case
+	Sub                    // a single method; Op may also be "batch", "mbatch", "txseq"
+	Filters  []sqlh.Filter `json:"filters,omitempty"` // batch, mbatch: one per caller
+	Handles  []sqlh.Handle `json:"handles,omitempty"` // mbatch
+	Owners   []int         `json:"owners,omitempty"`  // mbatch: index into Handles per caller
+	Ops      []Sub         `json:"ops,omitempty"`     // txseq
 	Origin   string        `json:"origin"`
 }
 
-// ---- generator ----
+// ---- running ----
 
-type gen struct {
-	*sqlh.Gen
+// obs is what one method call (or one batched caller) showed.
+type obs struct {
+	log     []fakesql.Entry // the server log entries of this call
+	outcome int
+	dbErr   bool
+	errored bool
+	panicTx string
+	detail  string
+	count   int64 // Count's answer, -1 otherwise
 }
 
-func baseType(ty string) string { return sqlh.BaseType(ty) }
-
-var limitCols = map[string][][]string{
-	"users":  {{"shard"}, {"shard"}, {"shard"}, {"shard", "name"}, {"nick"}, {"id"}, {"flag"}},
-	"items":  {{"shard"}, {"shard"}, {"shard", "kind"}, {"label"}, {"note"}, {"shard", "id"}, {"data"}, {"score"}},
-	"events": {{"org_id"}, {"org_id"}, {"tag"}, {"id"}, {"seq"}},
+type result struct {
+	subs    []obs           // single: 1, txseq: one per op, batch/mbatch: one per caller (log empty)
+	log     []fakesql.Entry // everything between the harness's own Begin and Commit/Rollback
+	arrival [][]int
+	foreign int // committed changes to rows whose before-image lies outside an enforced limit
 }
 
-// limitValue: mostly the driver-level type (so that writes can comply), sometimes the field's own type,
-// another type, a pointer, nil.
-func (g *gen) limitValue(c *sqlh.ColDesc) sqlh.GV {
-	k := g.R.Intn(100)
-	switch {
-	case k < 62:
-		v := g.Scalar(sqlh.DriverType(c))
-		if v.T == "bytes" && g.R.Chance(70) {
-			v.T = "string"
-		}
-		return v
-	case k < 74:
-		return g.Scalar(baseType(c.Ty))
-	case k < 82:
-		return g.Retype(g.Scalar(sqlh.DriverType(c)))
-	case k < 90:
-		e := g.Scalar(baseType(c.Ty))
-		return sqlh.GV{T: "ptr", Addr: g.NewAddr(), Elem: &e}
-	case k < 96:
-		return sqlh.GV{T: "nil"}
-	}
-	return sqlh.GV{T: "nilptr", PT: baseType(c.Ty)}
-}
-
-func (g *gen) limit(t *sqlh.TableDesc) sqlh.Filter {
-	sets := limitCols[t.Name]
-	f := sqlh.Filter{}
-	cols := sets[g.R.Intn(len(sets))]
-	for _, c := range cols {
-		v := g.limitValue(t.Col(c))
-		// Comparing two []byte panics; with several limit columns Go's map order would decide whether the
-		// panic or an ordinary mismatch comes first.  []byte limit values are kept to one-column limits.
-		if len(cols) > 1 && v.T == "bytes" {
-			v.T = "string"
-		}
-		f[c] = v
-	}
-	return f
-}
-
-func (g *gen) handle(t *sqlh.TableDesc) sqlh.Handle {
-	var h sqlh.Handle
-	k := g.R.Intn(100)
-	switch {
-	case k < 50:
-		h.Shard = g.limit(t)
-	case k < 65:
-		h.HasDyn, h.Dyn, h.DynCb = true, g.limit(t), true
-	case k < 73:
-		h.HasDyn, h.Dyn, h.DynCb, h.DynContinue = true, g.limit(t), true, true
-	case k < 77:
-		h.HasDyn, h.Dyn = true, g.limit(t)
-	case k < 81:
-		h.HasDyn, h.DynCb = true, true
-	case k < 95:
-		h.Shard = g.limit(t)
-		h.HasDyn, h.Dyn, h.DynCb = true, g.limit(t), true
-		if g.R.Chance(50) { // same dynamic limit as the shard limit, so that a call can comply with both
-			h.Dyn = sqlh.Filter{}
-			for k, v := range h.Shard {
-				h.Dyn[k] = v
+func execSub(db *sqlgen.DB, ctx context.Context, t *sqlh.TableDesc, pool sqlh.Pool, s Sub) (err error, pt string, count int64) {
+	count = -1
+	switch s.Op {
+	case "query":
+		err, pt = sqlh.Safely(func() error { return db.Query(ctx, t.NewResultSlice(), s.Filter.Go(pool), s.Opts.Go()) })
+	case "queryrow":
+		err, pt = sqlh.Safely(func() error { return db.QueryRow(ctx, t.NewResultRow(), s.Filter.Go(pool), s.Opts.Go()) })
+	case "fullscan":
+		err, pt = sqlh.Safely(func() error { return db.FullScanQuery(ctx, t.NewResultSlice(), s.Filter.Go(pool), s.Opts.Go()) })
+	case "count":
+		err, pt = sqlh.Safely(func() error {
+			n, err := db.Count(ctx, reflect.New(reflect.TypeOf(t.Proto)).Interface(), s.Filter.Go(pool))
+			if err == nil {
+				count = n
 			}
-		}
+			return err
+		})
+	case "insert":
+		err, pt = sqlh.Safely(func() error { _, err := db.InsertRow(ctx, t.Struct(s.Row, pool)); return err })
+	case "upsert":
+		err, pt = sqlh.Safely(func() error { _, err := db.UpsertRow(ctx, t.Struct(s.Row, pool)); return err })
+	case "update":
+		err, pt = sqlh.Safely(func() error { return db.UpdateRow(ctx, t.Struct(s.Row, pool)) })
+	case "delete":
+		err, pt = sqlh.Safely(func() error { return db.DeleteRow(ctx, t.Struct(s.Row, pool)) })
+	case "insertrows":
+		err, pt = sqlh.Safely(func() error { return db.InsertRows(ctx, t.SliceOf(s.Rows, pool), s.Chunk) })
+	case "upsertrows":
+		err, pt = sqlh.Safely(func() error { return db.UpsertRows(ctx, t.SliceOf(s.Rows, pool), s.Chunk) })
+	default:
+		pt = "harness: unknown op " + s.Op
 	}
-	return h
+	return
 }
 
-func copyFilter(f sqlh.Filter) sqlh.Filter {
-	o := sqlh.Filter{}
-	for k, v := range f {
-		o[k] = v
+func mkObs(log []fakesql.Entry, err error, pt string, count int64) obs {
+	o := obs{log: log, panicTx: pt, count: count, errored: err != nil || pt != ""}
+	o.outcome, o.dbErr = sqlh.Classify(err, pt, sqlh.AnyFailed(log))
+	if err != nil {
+		o.detail = err.Error()
+	}
+	if pt != "" {
+		o.detail = "panic: " + pt
 	}
 	return o
 }
 
-// readFilter derives a filter from the limits: complying, or broken in one of several ways.
-func (g *gen) readFilter(t *sqlh.TableDesc, h sqlh.Handle) (sqlh.Filter, string) {
-	f := sqlh.Filter{}
-	for _, l := range []sqlh.Filter{h.Dyn, h.Shard} {
-		for k, v := range l {
-			f[k] = v
-		}
+func (c Case) callerHandle(i int) sqlh.Handle {
+	if c.Op == "mbatch" && i < len(c.Owners) && c.Owners[i] < len(c.Handles) {
+		return c.Handles[c.Owners[i]]
 	}
-	for n := g.R.Intn(3); n > 0; n-- {
-		c := &t.Cols[g.R.Intn(len(t.Cols))]
-		if _, ok := f[c.Name]; !ok {
-			v := g.FieldValue(c)
-			if g.R.Chance(20) {
-				v = g.Retype(v)
-			}
-			f[c.Name] = v
-		}
-	}
-	keys := f.Keys()
-	lk := append(h.Shard.Keys(), h.Dyn.Keys()...)
-	mode := "comply"
-	k := g.R.Intn(100)
-	switch {
-	case k < 50 || len(lk) == 0:
-	case k < 62:
-		mode = "drop-key"
-		delete(f, lk[g.R.Intn(len(lk))])
-	case k < 76:
-		mode = "other-value"
-		c := lk[g.R.Intn(len(lk))]
-		f[c] = g.Other(f[c])
-	case k < 90:
-		mode = "retyped"
-		c := lk[g.R.Intn(len(lk))]
-		f[c] = g.Retype(f[c])
-	case k < 94:
-		mode = "unknown-column"
-		f["nope"] = sqlh.GV{T: "int64", Z: 1}
-	default:
-		mode = "empty"
-		f = sqlh.Filter{}
-	}
-	_ = keys
-	return f, mode
-}
-
-// asField converts a limit value to the column's field type when it denotes a value the field can hold.
-func asField(c *sqlh.ColDesc, v sqlh.GV, g *gen) (sqlh.GV, bool) {
-	if v.T == "ptr" {
-		v = *v.Elem
-	}
-	bt := baseType(c.Ty)
-	var out sqlh.GV
-	switch bt {
-	case "string", "Label", "bytes":
-		if v.T != "string" && v.T != "Label" && v.T != "bytes" {
-			return out, false
-		}
-		out = sqlh.GV{T: bt, S: v.S}
-	case "bool":
-		if v.T != "bool" {
-			return out, false
-		}
-		out = v
-	case "float64":
-		if v.T != "float64" {
-			return out, false
-		}
-		out = v
-	default:
-		if _, isInt := map[string]bool{"int": true, "int8": true, "int16": true, "int32": true, "int64": true, "uint": true,
-			"uint8": true, "uint16": true, "uint32": true, "uint64": true, "Kind": true}[v.T]; !isInt {
-			return out, false
-		}
-		if strings.HasPrefix(bt, "uint") && v.Z < 0 {
-			return out, false
-		}
-		out = sqlh.GV{T: bt, Z: v.Z}
-	}
-	if strings.HasPrefix(c.Ty, "*") {
-		e := out
-		return sqlh.GV{T: "ptr", Addr: g.NewAddr(), Elem: &e}, true
-	}
-	return out, true
-}
-
-var nextID int64 = 1000
-
-func (g *gen) row(t *sqlh.TableDesc, h sqlh.Handle, comply bool) sqlh.Row {
-	r := make(sqlh.Row, len(t.Cols))
-	for i := range t.Cols {
-		c := &t.Cols[i]
-		r[i] = g.FieldValue(c)
-		if c.Primary && c.Name == "id" {
-			nextID++
-			if c.Ty == "string" {
-				r[i] = sqlh.GV{T: "string", S: fmt.Sprintf("e%d", nextID)}
-			} else {
-				r[i] = sqlh.GV{T: c.Ty, Z: nextID}
-			}
-		}
-		for _, l := range []sqlh.Filter{h.Dyn, h.Shard} {
-			if lv, ok := l[c.Name]; ok && comply {
-				if lv.T == "nil" || lv.T == "nilptr" {
-					if strings.HasPrefix(c.Ty, "*") {
-						r[i] = sqlh.GV{T: "nilptr", PT: c.Ty[1:]}
-					} else if c.ImplicitNull {
-						r[i] = sqlh.GV{T: c.Ty}
-					}
-				} else if fv, ok := asField(c, lv, g); ok {
-					r[i] = fv
-				}
-			}
-		}
-	}
-	return r
-}
-
-var optsCatalogue = []*sqlh.Opts{
-	{}, {OrderBy: "id"}, {Limit: 2}, {OrderBy: "id DESC", Limit: 1}, {ForUpdate: true},
-	{Where: "id > ?", Values: []int64{1}}, {Where: "id > ? OR id < ?", Values: []int64{100, 0}, OrderBy: "id", Limit: 10},
-}
-
-func (g *gen) genCase() Case {
-	t := sqlh.Tables[g.R.Intn(len(sqlh.Tables))]
-	c := Case{Table: t.Name, Handle: g.handle(t), Origin: "generated"}
-	c.InTx = g.R.Chance(25)
-	c.Batching = g.R.Chance(40)
-	ops := []string{"query", "query", "queryrow", "fullscan", "count", "insert", "insertrows", "upsert", "upsertrows", "update", "delete", "batch", "batch"}
-	c.Op = ops[g.R.Intn(len(ops))]
-	switch c.Op {
-	case "query", "queryrow", "fullscan", "count":
-		c.Filter, _ = g.readFilter(t, c.Handle)
-		if c.Op != "count" && g.R.Chance(35) {
-			o := *optsCatalogue[g.R.Intn(len(optsCatalogue))]
-			c.Opts = &o
-		}
-	case "insert", "upsert", "update", "delete":
-		c.Row = g.row(t, c.Handle, g.R.Chance(60))
-	case "insertrows", "upsertrows":
-		n := g.R.Intn(6)
-		allComply := g.R.Chance(55)
-		for i := 0; i < n; i++ {
-			c.Rows = append(c.Rows, g.row(t, c.Handle, allComply || g.R.Chance(70)))
-		}
-		c.Chunk = g.R.Intn(4)
-		if c.Chunk == 0 && g.R.Chance(70) {
-			c.Chunk = 2
-		}
-	case "batch":
-		c.Batching, c.InTx = true, false
-		n := 2 + g.R.Intn(5)
-		for i := 0; i < n; i++ {
-			f, _ := g.readFilter(t, c.Handle)
-			if len(c.Filters) > 0 && g.R.Chance(20) {
-				f = copyFilter(c.Filters[g.R.Intn(len(c.Filters))])
-			}
-			c.Filters = append(c.Filters, f)
-		}
-	}
-	return c
-}
-
-// ---- fixed contents ----
-
-func contents() map[string][][]driver.Value {
-	m := map[string][][]driver.Value{}
-	for i := int64(1); i <= 9; i++ {
-		var nick driver.Value
-		if i%3 != 0 {
-			nick = sqlh.SmallStrings[i%4]
-		}
-		m["users"] = append(m["users"], []driver.Value{i, i % 4, sqlh.SmallStrings[i%5], nick, i % 5, i%2 == 0})
-		var note driver.Value
-		if i%2 == 0 {
-			note = "n"
-		}
-		m["items"] = append(m["items"], []driver.Value{i % 4, i, i % 3, sqlh.SmallStrings[i%3], note, []byte(sqlh.SmallStrings[i%4]), float64(i%5) / 4})
-		var org driver.Value
-		if i%3 != 1 {
-			org = i % 4
-		}
-		m["events"] = append(m["events"], []driver.Value{fmt.Sprintf("e%d", i), org, sqlh.SmallStrings[i%3], i % 4})
-	}
-	return m
-}
-
-// ---- oracle ----
-
-// pins says whether a conjunction of atoms constrains column col to the SQL value want (nil = NULL): it has
-// an un-negated atom  col = want,  col IS NULL (want NULL),  or  col IN (want, ..., want).  A comparison
-// with NULL (never true) also confines the disjunct: it selects nothing.
-func pins(conj []fakesql.Atom, args []interface{}, col string, want interface{}) bool {
-	for _, a := range conj {
-		if !strings.EqualFold(a.Col, col) || a.Neg {
-			continue
-		}
-		switch a.Op {
-		case "=", "in":
-			all := len(a.Vals) > 0
-			for _, o := range a.Vals {
-				v := o.Resolve(args)
-				if v == nil {
-					continue // never true
-				}
-				if want == nil || !sqlh.SQLEqual(v, want) {
-					all = false
-				}
-			}
-			if all {
-				return true
-			}
-		case "is":
-			if v := a.Vals[0].Resolve(args); v == nil && want == nil {
-				return true
-			}
-		}
-	}
-	return false
-}
-
-// confined checks one recorded statement against one limit; "" = confined.
-func confined(t *sqlh.TableDesc, e fakesql.Entry, limit sqlh.Filter, pool sqlh.Pool) string {
-	st, err := fakesql.Parse(e.SQL)
-	if err != nil {
-		return "unparsable statement: " + err.Error()
-	}
-	if !strings.EqualFold(st.Table, t.Name) {
-		return "statement on another table " + st.Table
-	}
-	for _, k := range limit.Keys() {
-		want := sqlh.DriverOf(t.Col(k), limit[k].Go(pool))
-		wherePins := func() bool {
-			for _, conj := range fakesql.Disjuncts(st.Where) {
-				if !pins(conj, e.Args, k, want) {
-					return false
-				}
-			}
-			return true
-		}
-		switch st.Kind {
-		case fakesql.Select, fakesql.Count, fakesql.Delete:
-			if !wherePins() {
-				return fmt.Sprintf("%s: a disjunct of WHERE does not constrain %s to %v", st.Kind, k, want)
-			}
-		case fakesql.InsertStmt, fakesql.Upsert:
-			ci := -1
-			for i, c := range st.Cols {
-				if strings.EqualFold(c, k) {
-					ci = i
-				}
-			}
-			if ci < 0 {
-				return fmt.Sprintf("%s does not carry column %s", st.Kind, k)
-			}
-			for _, row := range st.Rows {
-				if v := row[ci].Resolve(e.Args); !sqlh.SQLEqual(v, want) {
-					return fmt.Sprintf("%s carries %s = %v, limit is %v", st.Kind, k, v, want)
-				}
-			}
-		case fakesql.Update:
-			ok := wherePins()
-			for i, c := range st.Set {
-				if strings.EqualFold(c, k) && sqlh.SQLEqual(st.SetVals[i].Resolve(e.Args), want) {
-					ok = true
-				}
-			}
-			if !ok {
-				return fmt.Sprintf("UPDATE neither sets nor filters %s = %v", k, want)
-			}
-		default:
-			return "unexpected statement kind " + string(st.Kind)
-		}
-	}
-	return ""
-}
-
-// filterComplies: property-level compliance of a read filter: it filters on each limit column with the
-// value the limit denotes.
-func filterComplies(t *sqlh.TableDesc, f, limit sqlh.Filter, pool sqlh.Pool) bool {
-	for k, lv := range limit {
-		fv, ok := f[k]
-		if !ok {
-			return false
-		}
-		c := t.Col(k)
-		if !sqlh.SQLEqual(sqlh.DriverOf(c, fv.Go(pool)), sqlh.DriverOf(c, lv.Go(pool))) {
-			return false
-		}
-	}
-	return true
-}
-
-// rowComplies: the row's column values are those of the limit.  cols = the columns the statement carries.
-func rowComplies(t *sqlh.TableDesc, r sqlh.Row, cols map[string]bool, limit sqlh.Filter, pool sqlh.Pool) bool {
-	for k, lv := range limit {
-		if !cols[k] {
-			return false
-		}
-		for i := range t.Cols {
-			if t.Cols[i].Name == k {
-				if !sqlh.SQLEqual(sqlh.DriverOf(&t.Cols[i], r[i].Go(pool)), sqlh.DriverOf(&t.Cols[i], lv.Go(pool))) {
-					return false
-				}
-			}
-		}
-	}
-	return true
-}
-
-func carried(t *sqlh.TableDesc, op string) map[string]bool {
-	m := map[string]bool{}
-	for _, c := range t.Cols {
-		switch op {
-		case "insert", "insertrows":
-			if !(c.Primary && t.Auto) {
-				m[c.Name] = true
-			}
-		case "delete":
-			if c.Primary {
-				m[c.Name] = true
-			}
-		default:
-			m[c.Name] = true
-		}
-	}
-	return m
-}
-
-// ---- running one case ----
-
-type result struct {
-	log      []fakesql.Entry
-	outcomes []int
-	dbErr    bool
-	arrival  [][]int
-	detail   string
-	panics   []string
-	errored  []bool // the call returned an error or panicked
+	return c.Handle
 }
 
 func runCase(c Case, run *vh.Run, idx int) (res result, fatal string) {
@@ -480,42 +141,66 @@ func runCase(c Case, run *vh.Run, idx int) (res result, fatal string) {
 		return res, "environment: " + err.Error()
 	}
 	defer env.Close()
-	ctx := context.Background()
-	if c.Batching && c.Op != "batch" {
-		ctx = batch.WithBatching(ctx)
-	}
-	db := env.DB
-	if c.InTx {
-		var e2 error
-		ctx, _, e2 = db.WithTx(ctx)
-		if e2 != nil {
-			return res, "WithTx: " + e2.Error()
-		}
-	}
-	env.Srv.ResetLog()
-	if bf := sqlh.BatchFunc(db); bf == nil {
+	if sqlh.BatchFunc(env.DB) == nil {
 		return res, "sqlgen.DB has no batchFetch field any more: the batch function cannot be observed"
 	}
+	// (observation, not a failure) committed changes to rows that lay outside an enforced limit
+	var mu sync.Mutex
+	env.Srv.OnCommit(func(table string, before, after []driver.Value) {
+		if before == nil {
+			return
+		}
+		for _, l := range c.Handle.Enforced() {
+			for k, lv := range l {
+				for i := range t.Cols {
+					if t.Cols[i].Name == k && !sqlh.SQLEqual(before[i], sqlh.DriverOf(&t.Cols[i], lv.Go(sqlh.Pool{}))) {
+						mu.Lock()
+						res.foreign++
+						mu.Unlock()
+						return
+					}
+				}
+			}
+		}
+	})
 
-	if c.Op == "batch" {
+	if c.Op == "batch" || c.Op == "mbatch" {
 		filters := make([]sqlgen.Filter, len(c.Filters))
+		dbs := make([]*sqlgen.DB, len(c.Filters))
+		derived := map[int]*sqlgen.DB{}
 		for i, f := range c.Filters {
 			filters[i] = f.Go(env.Pool)
+			if filters[i] == nil {
+				filters[i] = sqlgen.Filter{}
+			}
+			dbs[i] = env.DB
+			if c.Op == "mbatch" {
+				if i >= len(c.Owners) || c.Owners[i] >= len(c.Handles) {
+					return res, "mbatch: bad owner"
+				}
+				if _, ok := derived[c.Owners[i]]; !ok {
+					d, err := env.Restrict(c.Handles[c.Owners[i]])
+					if err != nil {
+						return res, "environment: " + err.Error()
+					}
+					derived[c.Owners[i]] = d
+				}
+				dbs[i] = derived[c.Owners[i]]
+			}
 		}
-		br := sqlh.RunBatched(db, t, filters)
+		if len(filters) == 0 {
+			return res, "batch without callers"
+		}
+		env.Srv.ResetLog()
+		br := sqlh.RunBatchedOn(dbs, t, filters)
 		res.log = env.Srv.Log()
 		res.arrival = br.Arrival
 		for i := range filters {
-			cl, dbe := sqlh.Classify(br.Errs[i], br.Panics[i], sqlh.AnyFailed(res.log))
-			res.outcomes = append(res.outcomes, cl)
-			res.dbErr = res.dbErr || dbe
-			res.panics = append(res.panics, br.Panics[i])
-			res.errored = append(res.errored, br.Errs[i] != nil || br.Panics[i] != "")
-			if br.Errs[i] != nil {
-				res.detail += fmt.Sprintf("caller %d: %v; ", i, br.Errs[i])
-			}
-			// rows handed to a caller of a limited handle lie in the shard
-			for _, l := range c.Handle.Enforced() {
+			o := mkObs(nil, br.Errs[i], br.Panics[i], -1)
+			o.outcome, o.dbErr = sqlh.Classify(br.Errs[i], br.Panics[i], sqlh.AnyFailed(res.log))
+			res.subs = append(res.subs, o)
+			// rows handed to a caller of a limited handle lie in its shard
+			for _, l := range c.callerHandle(i).Enforced() {
 				for _, row := range br.Rows[i] {
 					for k, lv := range l {
 						col := t.Col(k)
@@ -537,48 +222,40 @@ func runCase(c Case, run *vh.Run, idx int) (res result, fatal string) {
 		return res, ""
 	}
 
-	var opErr error
-	var pt string
-	switch c.Op {
-	case "query":
-		opErr, pt = sqlh.Safely(func() error { return db.Query(ctx, t.NewResultSlice(), c.Filter.Go(env.Pool), c.Opts.Go()) })
-	case "queryrow":
-		opErr, pt = sqlh.Safely(func() error { return db.QueryRow(ctx, t.NewResultRow(), c.Filter.Go(env.Pool), c.Opts.Go()) })
-	case "fullscan":
-		opErr, pt = sqlh.Safely(func() error {
-			return db.FullScanQuery(ctx, t.NewResultSlice(), c.Filter.Go(env.Pool), c.Opts.Go())
-		})
-	case "count":
-		opErr, pt = sqlh.Safely(func() error {
-			_, err := db.Count(ctx, reflect.New(reflect.TypeOf(t.Proto)).Interface(), c.Filter.Go(env.Pool))
-			return err
-		})
-	case "insert":
-		opErr, pt = sqlh.Safely(func() error { _, err := db.InsertRow(ctx, t.Struct(c.Row, env.Pool)); return err })
-	case "upsert":
-		opErr, pt = sqlh.Safely(func() error { _, err := db.UpsertRow(ctx, t.Struct(c.Row, env.Pool)); return err })
-	case "update":
-		opErr, pt = sqlh.Safely(func() error { return db.UpdateRow(ctx, t.Struct(c.Row, env.Pool)) })
-	case "delete":
-		opErr, pt = sqlh.Safely(func() error { return db.DeleteRow(ctx, t.Struct(c.Row, env.Pool)) })
-	case "insertrows":
-		opErr, pt = sqlh.Safely(func() error { return db.InsertRows(ctx, t.SliceOf(c.Rows, env.Pool), c.Chunk) })
-	case "upsertrows":
-		opErr, pt = sqlh.Safely(func() error { return db.UpsertRows(ctx, t.SliceOf(c.Rows, env.Pool), c.Chunk) })
-	default:
-		return res, "unknown op " + c.Op
+	ctx := context.Background()
+	if c.Batching {
+		ctx = batch.WithBatching(ctx)
+	}
+	db := env.DB
+	var tx interface {
+		Commit() error
+		Rollback() error
+	}
+	if c.InTx || c.Op == "txseq" {
+		c2, t2, e2 := db.WithTx(ctx)
+		if e2 != nil {
+			return res, "WithTx: " + e2.Error()
+		}
+		ctx, tx = c2, t2
+	}
+	env.Srv.ResetLog()
+	subs := []Sub{c.Sub}
+	if c.Op == "txseq" {
+		subs = c.Ops
+	}
+	for _, s := range subs {
+		before := len(env.Srv.Log())
+		e, pt, n := execSub(db, ctx, t, env.Pool, s)
+		log := env.Srv.Log()
+		res.subs = append(res.subs, mkObs(log[before:], e, pt, n))
 	}
 	res.log = env.Srv.Log()
-	cl, dbe := sqlh.Classify(opErr, pt, sqlh.AnyFailed(res.log))
-	res.outcomes = []int{cl}
-	res.dbErr = dbe
-	res.panics = []string{pt}
-	res.errored = []bool{opErr != nil || pt != ""}
-	if opErr != nil {
-		res.detail = opErr.Error()
-	}
-	if pt != "" {
-		res.detail = "panic: " + pt
+	if tx != nil {
+		if c.Commit {
+			tx.Commit()
+		} else {
+			tx.Rollback()
+		}
 	}
 	return res, ""
 }
@@ -593,18 +270,22 @@ func statements(log []fakesql.Entry) []fakesql.Entry {
 	return out
 }
 
-func oracle(c Case, res result, run *vh.Run, idx int) {
-	t := sqlh.TableByName(c.Table)
+// ---- oracle ----
+
+// oracleSub: what the property asks of one method call on a handle with the given enforced limits.
+func oracleSub(c Case, t *sqlh.TableDesc, limits []sqlh.Filter, s Sub, o obs, countable bool, run *vh.Run, idx int) {
 	pool := sqlh.Pool{}
-	limits := c.Handle.Enforced()
-	stmts := statements(res.log)
-	for _, cl := range res.outcomes {
-		if cl == sqlh.Panicked {
-			run.Fail(idx, "c12-panic", res.detail+strings.Join(res.panics, " | "), c)
-			return
+	stmts := statements(o.log)
+	if o.outcome == sqlh.Panicked {
+		sig := "c12-panic"
+		if strings.Contains(o.panicTx, "comparing uncomparable") {
+			// "any call that does not comply returns an error": a panic is not an error return (and a call
+			// that complies must not panic either)
+			sig = "c12-limit-check-panics-on-uncomparable-value"
 		}
+		run.Fail(idx, sig, o.detail, c)
+		return
 	}
-	// 1. every statement that reached the server is confined to every enforced limit
 	for _, e := range stmts {
 		for _, l := range limits {
 			if why := confined(t, e, l, pool); why != "" {
@@ -613,24 +294,52 @@ func oracle(c Case, res result, run *vh.Run, idx int) {
 			}
 		}
 	}
-	// 2. a call that does not comply returns an error and issues nothing
-	switch c.Op {
+	switch s.Op {
 	case "query", "queryrow", "fullscan", "count":
 		for _, l := range limits {
-			if !filterComplies(t, c.Filter, l, pool) {
-				if !res.errored[0] {
-					run.Fail(idx, "c12-noncomplying-read-not-rejected", res.detail, c)
+			if !filterComplies(t, s.Filter, l, pool) {
+				if !o.errored {
+					run.Fail(idx, "c12-noncomplying-read-not-rejected", o.detail, c)
 				}
 				if len(stmts) > 0 {
 					run.Fail(idx, "c12-noncomplying-read-issued-statement", stmts[0].SQL, c)
 				}
 			}
 		}
+		if s.Op == "count" && countable && o.outcome == sqlh.Proceeds && !o.dbErr && !o.errored {
+			want := int64(0)
+			for _, row := range contents()[t.Name] {
+				match := true
+				for k, v := range s.Filter {
+					col := t.Col(k)
+					if col == nil {
+						match = false
+						break
+					}
+					w := sqlh.DriverOf(col, v.Go(pool))
+					var cell driver.Value
+					for i := range t.Cols {
+						if t.Cols[i].Name == k {
+							cell, _ = fakesql.Coerce(t.Cols[i].SQL, row[i])
+						}
+					}
+					if (w == nil) != (cell == nil) || (w != nil && !sqlh.SQLEqual(cell, w)) {
+						match = false
+					}
+				}
+				if match {
+					want++
+				}
+			}
+			if o.count != want {
+				run.Fail(idx, "c12-count-wrong", fmt.Sprintf("Count answered %d, %d rows match the filter", o.count, want), c)
+			}
+		}
 	case "insert", "upsert", "update", "delete":
 		for _, l := range limits {
-			if !rowComplies(t, c.Row, carried(t, c.Op), l, pool) {
-				if !res.errored[0] {
-					run.Fail(idx, "c12-noncomplying-write-not-rejected", res.detail, c)
+			if !rowComplies(t, s.Row, carried(t, s.Op), l, pool) {
+				if !o.errored {
+					run.Fail(idx, "c12-noncomplying-write-not-rejected", o.detail, c)
 				}
 				if len(stmts) > 0 {
 					run.Fail(idx, "c12-noncomplying-write-issued-statement", stmts[0].SQL, c)
@@ -640,27 +349,158 @@ func oracle(c Case, res result, run *vh.Run, idx int) {
 	case "insertrows", "upsertrows":
 		bad := false
 		for _, l := range limits {
-			for _, r := range c.Rows {
-				if !rowComplies(t, r, carried(t, c.Op), l, pool) {
+			for _, r := range s.Rows {
+				if !rowComplies(t, r, carried(t, s.Op), l, pool) {
 					bad = true
 				}
 			}
 		}
-		if bad && c.Chunk > 0 {
-			if !res.errored[0] { // an error of the database on an earlier (confined) chunk also ends the call
-				run.Fail(idx, "c12-noncomplying-bulk-write-not-rejected", res.detail, c)
+		if bad && s.Chunk > 0 {
+			if !o.errored { // an error of the database on an earlier (confined) chunk also ends the call
+				run.Fail(idx, "c12-noncomplying-bulk-write-not-rejected", o.detail, c)
 			}
-			for _, e := range res.log {
+			for _, e := range o.log {
 				if e.Kind == "commit" {
 					run.Fail(idx, "c12-noncomplying-bulk-write-committed", "", c)
 				}
 			}
 		}
-	case "batch":
+	}
+	// an error that is not the database's means nothing was issued by that call (single-statement methods)
+	if s.Op != "insertrows" && s.Op != "upsertrows" && o.outcome != sqlh.Proceeds && len(stmts) > 0 {
+		run.Fail(idx, "c12-rejected-call-issued-statement", stmts[0].SQL, c)
+	}
+}
+
+// expand turns the WHERE of a combined statement into its disjuncts, one per value of every IN list:
+// each a list of (column, value) with nil = IS NULL.  ok=false when an atom is not of the shapes
+// makeBatchQuery writes.
+type pin struct {
+	col string
+	val interface{}
+}
+
+func expand(st *fakesql.Stmt, args []interface{}) (out [][]pin, ok bool) {
+	for _, conj := range fakesql.Disjuncts(st.Where) {
+		alts := [][]pin{{}}
+		for _, a := range conj {
+			if a.Neg {
+				return nil, false
+			}
+			var vals []interface{}
+			switch a.Op {
+			case "=", "in":
+				for _, v := range a.Vals {
+					vals = append(vals, v.Resolve(args))
+				}
+			case "is":
+				if a.Vals[0].Resolve(args) != nil {
+					return nil, false
+				}
+				vals = []interface{}{nil}
+			default:
+				return nil, false
+			}
+			var next [][]pin
+			for _, alt := range alts {
+				for _, v := range vals {
+					if v == nil && a.Op != "is" {
+						continue // "= NULL" / "IN (NULL)": never true, selects nothing
+					}
+					next = append(next, append(append([]pin{}, alt...), pin{a.Col, v}))
+				}
+			}
+			alts = next
+		}
+		out = append(out, alts...)
+	}
+	return out, true
+}
+
+// justified: every disjunct of the combined statement is exactly the filter of one of the callers of that
+// invocation (who, by the other oracle clauses, complied with the limit of its own handle).
+func justified(c Case, t *sqlh.TableDesc, e fakesql.Entry, callers []int) string {
+	pool := sqlh.Pool{}
+	st, err := fakesql.Parse(e.SQL)
+	if err != nil {
+		return "unparsable statement: " + err.Error()
+	}
+	if st.Where == nil {
+		for _, i := range callers {
+			if len(c.Filters[i]) == 0 {
+				return ""
+			}
+		}
+		return "statement without WHERE although no caller of the invocation has an empty filter"
+	}
+	ds, ok := expand(st, e.Args)
+	if !ok {
+		return "WHERE clause is not a disjunction of equalities"
+	}
+	for _, d := range ds {
+		found := false
+		for _, i := range callers {
+			f := c.Filters[i]
+			if len(f) != len(d) {
+				continue
+			}
+			all := true
+			for _, p := range d {
+				v, has := f[p.col]
+				if !has || !sqlh.SQLEqual(sqlh.DriverOf(t.Col(p.col), v.Go(pool)), p.val) {
+					all = false
+				}
+			}
+			if all {
+				found = true
+				break
+			}
+		}
+		if !found {
+			return fmt.Sprintf("disjunct %v is not the filter of any caller of the invocation %v", d, callers)
+		}
+	}
+	return ""
+}
+
+func oracle(c Case, res result, run *vh.Run, idx int) {
+	t := sqlh.TableByName(c.Table)
+	pool := sqlh.Pool{}
+	switch c.Op {
+	case "batch", "mbatch":
+		stmts := statements(res.log)
+		for i, o := range res.subs {
+			if o.outcome == sqlh.Panicked {
+				sig := "c12-panic"
+				if strings.Contains(o.panicTx, "comparing uncomparable") {
+					sig = "c12-limit-check-panics-on-uncomparable-value"
+				}
+				run.Fail(idx, sig, fmt.Sprintf("caller %d: %s", i, o.detail), c)
+				return
+			}
+		}
+		if len(stmts) != len(res.arrival) {
+			run.Fail(idx, "c12-batch-statement-count", fmt.Sprintf("%d invocations of the batch function, %d statements", len(res.arrival), len(stmts)), c)
+			return
+		}
+		for k, e := range stmts {
+			if c.Op == "batch" {
+				for _, l := range c.Handle.Enforced() {
+					if why := confined(t, e, l, pool); why != "" {
+						run.Fail(idx, "c12-unconfined-statement", why+" :: "+e.SQL+" "+fmt.Sprint(e.Args), c)
+						return
+					}
+				}
+			}
+			if why := justified(c, t, e, res.arrival[k]); why != "" {
+				run.Fail(idx, "c12-batched-disjunct-without-caller", why+" :: "+e.SQL+" "+fmt.Sprint(e.Args), c)
+				return
+			}
+		}
 		for i, f := range c.Filters {
-			for _, l := range limits {
+			for _, l := range c.callerHandle(i).Enforced() {
 				if !filterComplies(t, f, l, pool) {
-					if !res.errored[i] {
+					if !res.subs[i].errored {
 						run.Fail(idx, "c12-noncomplying-batched-read-not-rejected", fmt.Sprintf("caller %d", i), c)
 					}
 					for _, b := range res.arrival {
@@ -673,70 +513,99 @@ func oracle(c Case, res result, run *vh.Run, idx int) {
 				}
 			}
 		}
-		if len(stmts) != len(res.arrival) {
-			run.Fail(idx, "c12-batch-statement-count", fmt.Sprintf("%d invocations of the batch function, %d statements", len(res.arrival), len(stmts)), c)
+	case "txseq":
+		for k, s := range c.Ops {
+			oracleSub(c, t, c.Handle.Enforced(), s, res.subs[k], false, run, idx)
 		}
-	}
-	// 3. an error from a limit check means nothing was issued by that call (single-statement operations)
-	if c.Op != "batch" && c.Op != "insertrows" && c.Op != "upsertrows" && res.outcomes[0] != sqlh.Proceeds && len(stmts) > 0 {
-		run.Fail(idx, "c12-rejected-call-issued-statement", stmts[0].SQL, c)
+	default:
+		oracleSub(c, t, c.Handle.Enforced(), c.Sub, res.subs[0], true, run, idx)
 	}
 }
 
-func coqOp(c Case) string {
-	f := c.Filter
+// ---- Coq terms ----
+
+func coqSub(s Sub) string {
+	f := s.Filter
 	if f == nil {
 		f = sqlh.Filter{}
 	}
 	rows := func() string {
-		xs := make([]string, len(c.Rows))
-		for i, r := range c.Rows {
+		xs := make([]string, len(s.Rows))
+		for i, r := range s.Rows {
 			xs[i] = r.Coq()
 		}
 		return vh.CoqList(xs)
 	}
-	switch c.Op {
+	switch s.Op {
 	case "query", "queryrow":
-		return fmt.Sprintf("(Single (OQuery %s %s))", f.Coq(), c.Opts.Coq())
+		return fmt.Sprintf("(OQuery %s %s)", f.Coq(), s.Opts.Coq())
 	case "fullscan":
-		o := c.Opts
+		o := s.Opts
 		if o == nil {
 			o = &sqlh.Opts{}
 		}
-		return fmt.Sprintf("(Single (OQuery %s %s))", f.Coq(), o.Coq())
+		return fmt.Sprintf("(OQuery %s %s)", f.Coq(), o.Coq())
 	case "count":
-		return fmt.Sprintf("(Single (OCount %s))", f.Coq())
+		return fmt.Sprintf("(OCount %s)", f.Coq())
 	case "insert":
-		return fmt.Sprintf("(Single (OInsertRow %s))", c.Row.Coq())
+		return fmt.Sprintf("(OInsertRow %s)", s.Row.Coq())
 	case "upsert":
-		return fmt.Sprintf("(Single (OUpsertRow %s))", c.Row.Coq())
+		return fmt.Sprintf("(OUpsertRow %s)", s.Row.Coq())
 	case "update":
-		return fmt.Sprintf("(Single (OUpdateRow %s))", c.Row.Coq())
+		return fmt.Sprintf("(OUpdateRow %s)", s.Row.Coq())
 	case "delete":
-		return fmt.Sprintf("(Single (ODeleteRow %s))", c.Row.Coq())
+		return fmt.Sprintf("(ODeleteRow %s)", s.Row.Coq())
 	case "insertrows":
-		return fmt.Sprintf("(Single (OInsertRows %s %d))", rows(), c.Chunk)
+		return fmt.Sprintf("(OInsertRows %s %d)", rows(), s.Chunk)
 	case "upsertrows":
-		return fmt.Sprintf("(Single (OUpsertRows %s %d))", rows(), c.Chunk)
+		return fmt.Sprintf("(OUpsertRows %s %d)", rows(), s.Chunk)
 	}
-	panic("coqOp " + c.Op)
+	panic("coqSub " + s.Op)
+}
+
+func coqCaseOp(c Case, res result) string {
+	switch c.Op {
+	case "batch":
+		fs := make([]string, len(c.Filters))
+		for i, f := range c.Filters {
+			fs[i] = f.Coq()
+		}
+		return fmt.Sprintf("(Batched %s %s)", vh.CoqList(fs), sqlh.CoqArrival(res.arrival))
+	case "mbatch":
+		cs := make([]string, len(c.Filters))
+		for i, f := range c.Filters {
+			cs[i] = "(" + c.callerHandle(i).Coq() + ", " + f.Coq() + ")"
+		}
+		return fmt.Sprintf("(BatchedMulti %s %s)", vh.CoqList(cs), sqlh.CoqArrival(res.arrival))
+	case "txseq":
+		ops := make([]string, len(c.Ops))
+		for i, s := range c.Ops {
+			ops[i] = coqSub(s)
+		}
+		return "(Seq " + vh.CoqList(ops) + ")"
+	}
+	return "(Single " + coqSub(c.Sub) + ")"
 }
 
 func main() {
 	o := vh.ParseFlags()
 	run := vh.NewRun("C12", o)
-	run.Rule = "one case = (table of a 3-table catalogue, shard and/or dynamic limit, in/out of a transaction, with/without batch.WithBatching, one DB method or 2-6 concurrent batched Query calls, filter/rows derived from the limit: 50-60% complying, else key dropped / other value / same value with another Go type or pointer / unknown column / empty); non-trivial = the handle enforces a limit and the call reached a limit check (not rejected for bad input); distinct by JSON of the case"
+	run.Rule = "one case = (table of a 3-table catalogue, shard and/or dynamic limit, in/out of a transaction, with/without batch.WithBatching, and one DB method incl. SelectOptions and Count / 2-6 concurrent batched Query calls on one handle / the same on 2-3 handles sharing the batch function / 2-4 methods inside one transaction; filters and rows derived from the limit: 50-60% complying, else key dropped / other value / same value with another Go type or pointer / unknown column / empty); non-trivial = some handle of the case enforces a limit and some call reached a limit check (not all rejected for bad input); distinct by JSON of the case"
 	r := vh.NewRng(o.Seed)
 	g := &gen{&sqlh.Gen{R: r}}
+	searching := o.Search != ""
 
 	var cases []Case
-	if o.Replay != "" {
+	switch {
+	case searching:
+		cases = searchCases(o, r)
+	case o.Replay != "":
 		var c Case
 		if vh.ReadReplayCase(o.Replay, &c) {
 			c.Origin = "replay"
 			cases = append(cases, c)
 		}
-	} else {
+	default:
 		for _, f := range vh.CorpusFiles(o.Corpus) {
 			var c Case
 			if vh.ReadReplayCase(f, &c) {
@@ -775,11 +644,16 @@ func main() {
 		run.Hist("op:" + c.Op)
 		run.Hist("table:" + c.Table)
 		enforced := len(c.Handle.Enforced()) > 0
-		for i, cl := range res.outcomes {
-			run.Hist([]string{"outcome:proceeds", "outcome:rejected", "outcome:bad-input", "outcome:panic"}[cl])
-			if res.panics[i] != "" {
-				run.Hist("panic:comparing-uncomparable")
+		for _, h := range c.Handles {
+			enforced = enforced || len(h.Enforced()) > 0
+		}
+		allBad, dbErr := true, false
+		for _, ob := range res.subs {
+			run.Hist([]string{"outcome:proceeds", "outcome:rejected", "outcome:bad-input", "outcome:panic"}[ob.outcome])
+			if ob.outcome != sqlh.BadInput {
+				allBad = false
 			}
+			dbErr = dbErr || ob.dbErr
 		}
 		if c.InTx {
 			run.Hist("ctx:in-tx")
@@ -787,43 +661,72 @@ func main() {
 		if c.Batching {
 			run.Hist("ctx:batching")
 		}
+		for _, s := range append([]Sub{c.Sub}, c.Ops...) {
+			if s.Opts != nil {
+				run.Hist("select-options")
+			}
+		}
 		switch {
 		case c.Handle.Shard != nil && c.Handle.HasDyn:
 			run.Hist("handle:shard+dynamic")
 		case c.Handle.Shard != nil:
 			run.Hist("handle:shard")
+		case c.Handle.HasDyn && !c.Handle.DynCb:
+			run.Hist("handle:dynamic-without-callback (not enforced by sqlgen)")
 		case c.Handle.HasDyn:
 			run.Hist("handle:dynamic")
 		default:
 			run.Hist("handle:unrestricted")
 		}
-		if c.Op == "batch" {
+		if c.Op == "batch" || c.Op == "mbatch" {
 			run.Hist(fmt.Sprintf("batch:invocations=%d", len(res.arrival)))
 		}
-		nontrivial := enforced
-		all2 := true
-		for _, cl := range res.outcomes {
-			if cl != sqlh.BadInput {
-				all2 = false
+		if c.Op == "mbatch" {
+			mixed := map[int]bool{}
+			for _, b := range res.arrival {
+				for _, k := range b {
+					mixed[c.Owners[k]] = true
+				}
+			}
+			if len(mixed) > 1 {
+				run.Hist("mbatch:handles-combined-in-one-run")
 			}
 		}
-		if all2 {
-			nontrivial = false
+		if res.foreign > 0 {
+			run.Hist("observed:committed-write-changed-a-row-of-another-shard (UPDATE/UPSERT carry the value; not a failure)")
 		}
+		nontrivial := enforced && !allBad
 		kc := c
 		kc.Origin = ""
 		kb, _ := json.Marshal(kc)
 		run.Count(string(kb), nontrivial)
-		if nontrivial {
+		if nontrivial && !searching {
 			var st []string
 			for _, e := range statements(res.log) {
 				st = append(st, e.SQL+" "+fmt.Sprint(e.Args))
 			}
-			run.Sample(map[string]interface{}{"case": c, "outcomes": res.outcomes, "statements": st})
+			outs := []int{}
+			for _, ob := range res.subs {
+				outs = append(outs, ob.outcome)
+			}
+			run.Sample(map[string]interface{}{"case": c, "outcomes": outs, "statements": st})
+		}
+		if searching {
+			continue
 		}
 
-		if res.dbErr {
+		if dbErr {
 			run.Hist("skipped-model:database-error")
+			continue
+		}
+		panicked := false
+		for _, ob := range res.subs {
+			if ob.outcome == sqlh.Panicked {
+				panicked = true
+			}
+		}
+		if panicked {
+			run.Hist("skipped-model:panic")
 			continue
 		}
 		ev, ok := sqlh.CoqEvents(res.log)
@@ -831,28 +734,21 @@ func main() {
 			run.Hist("skipped-model:value-outside-model")
 			continue
 		}
-		outs := make([]string, len(res.outcomes))
-		for i, cl := range res.outcomes {
-			outs[i] = fmt.Sprint(cl)
+		outs := make([]string, len(res.subs))
+		for i, ob := range res.subs {
+			outs[i] = fmt.Sprint(ob.outcome)
 		}
 		t := sqlh.TableByName(c.Table)
-		var op string
-		if c.Op == "batch" {
-			fs := make([]string, len(c.Filters))
-			for i, f := range c.Filters {
-				fs[i] = f.Coq()
-			}
-			arr := res.arrival
-			sort.SliceStable(arr, func(a, b int) bool { return false })
-			op = fmt.Sprintf("(Batched %s %s)", vh.CoqList(fs), sqlh.CoqArrival(arr))
-		} else {
-			op = coqOp(c)
-		}
+		inTx := c.InTx || c.Op == "txseq"
 		terms = append(terms, fmt.Sprintf("(%d, mk_c12 %s %s (mk_ctx %s %s) %s %s %s)", idx, t.Coq(), c.Handle.Coq(),
-			vh.CoqBool(c.InTx), vh.CoqBool(c.Batching), op, ev, vh.CoqList(outs)))
+			vh.CoqBool(inTx), vh.CoqBool(c.Batching), coqCaseOp(c, res), ev, vh.CoqList(outs)))
 		if len(terms) >= shard {
 			flush()
 		}
+	}
+	if searching {
+		run.Finish()
+		return
 	}
 	flush()
 	run.Finish()
